@@ -10,8 +10,8 @@
 #include <limits.h>
 
 static const char* TOK[] = {"{", "}", "[", "]", ",", ":", "\"", "\\", "u", "d", "0", "a", "f", "1", "-", ".", "e", "/", "*", " ", "\n", "\r", "\x01", "\x80", "\xff",
-  "true", "null", "\xc3\xa9", "\\ud83d", "\\ude00", "t", "n"};
-static const int NTOK = 32;
+  "true", "null", "\xc3\xa9", "\\ud83d", "\\ude00", "t", "n", "false"};
+static const int NTOK = 33;
 
 // line structure as the parser documents it: CRLF, CR and LF each end a line
 static void lineInfo(const std::string& s, std::vector<int>& lens)
@@ -36,18 +36,19 @@ static bool checkErrorPos(const std::string& text, int line, int col, std::strin
   return true;
 }
 
-static void parseCase(const std::string& text, const std::string& cs)
+static bool parseCase(const std::string& text, const std::string& cs)
 {
   vf::Exact e(text, true);
   Json::Parser p;
   Variant v;
   bool ok = p.parse((const char*)e.p, v);
   vf::hit("parse_inputs");
-  if(ok) { vf::hit("parse_accepted"); return; }
+  if(ok) { vf::hit("parse_accepted"); return true; }
   vf::hit("parse_rejected");
   std::string why;
   if(!checkErrorPos(text, p.getErrorLine(), p.getErrorColumn(), why))
     vf::violation("C15:json:error-position", cs, why);
+  return false;
 }
 
 // ---------------------------------------------------------------- round trip
@@ -185,6 +186,7 @@ int main(int argc, char** argv)
   if(mode == "parse")
   {
     int ntok = (int)vf::argll(argc, argv, "--ntok", NTOK);
+    int preflen = (int)vf::argll(argc, argv, "--preflen", 4);
     vf::Odometer od(ntok, len);
     long long n = 0;
     while(od.next())
@@ -195,7 +197,11 @@ int main(int argc, char** argv)
       cs += " text='" + vf::show(text) + "'";
       vf::crumb("json.parse", sh.token(), cs);
       if((n++ & 0xff) == 0) vf::watchdog_arm(20000);
-      parseCase(text, cs);
+      bool accepted = parseCase(text, cs);
+      // every byte prefix of every accepted document of up to --preflen tokens: truncation inside a keyword, an escape or a number
+      // (the token alphabet only ever ends a text at a token boundary)
+      if(accepted && od.len <= preflen)
+        for(size_t k = 1; k < text.size(); ++k) { parseCase(text.substr(0, k), cs + vf::fmt(" truncated to %d bytes", (int)k)); vf::hit("prefix_inputs"); }
       if(od.len >= 2) vf::hit("distinct_nontrivial");
       if(od.len == 4 && od.d[0] == 2 && od.d[1] == 6) vf::sample(cs, 3);
     }
